@@ -29,6 +29,29 @@ use crate::{
 
 use super::json_tokenizer::{JsonTokenizer, JsonValue};
 
+/// Deepest nesting of arrays / objects accepted (the same limit serde_json
+/// applies in the default loader), so that a hostile document cannot
+/// overflow the stack.
+const MAX_NESTING: usize = 128;
+
+fn malformed(expected: &str) -> StoryError {
+    StoryError::BadJson(format!("Malformed JSON: expected {expected}"))
+}
+
+fn str_of(value: &JsonValue) -> Result<&str, StoryError> {
+    value.as_str().ok_or_else(|| malformed("a string"))
+}
+
+fn int_of(value: &JsonValue) -> Result<i32, StoryError> {
+    value.as_integer().ok_or_else(|| malformed("an integer"))
+}
+
+fn read_int(tok: &mut JsonTokenizer) -> Result<i32, StoryError> {
+    tok.read_number()?
+        .as_integer()
+        .ok_or_else(|| malformed("an integer"))
+}
+
 pub fn load_from_string(
     s: &str,
 ) -> Result<(i32, Rc<Container>, Rc<ListDefinitionsOrigin>), StoryError> {
@@ -50,7 +73,7 @@ fn parse(
         ));
     }
 
-    let version: i32 = tok.read_number().unwrap().as_integer().unwrap();
+    let version: i32 = read_int(tok)?;
 
     if version > INK_VERSION_CURRENT {
         return Err(StoryError::BadJson(
@@ -74,7 +97,7 @@ fn parse(
     }
 
     let root_value = tok.read_value()?;
-    let main_content_container = match jtoken_to_runtime_object(tok, root_value, None)? {
+    let main_content_container = match jtoken_to_runtime_object(tok, root_value, None, 0)? {
         ArrayElement::RTObject(rt_obj) => rt_obj,
         _ => {
             return Err(StoryError::BadJson(
@@ -83,15 +106,14 @@ fn parse(
         }
     };
 
-    let main_content_container = main_content_container.into_any().downcast::<Container>();
-
-    if main_content_container.is_err() {
-        return Err(StoryError::BadJson(
-            "Root node for ink is not a container?".to_owned(),
-        ));
+    let main_content_container = match main_content_container.into_any().downcast::<Container>() {
+        Ok(container) => container,
+        Err(_) => {
+            return Err(StoryError::BadJson(
+                "Root node for ink is not a container?".to_owned(),
+            ));
+        }
     };
-
-    let main_content_container = main_content_container.unwrap(); // unwrap: checked for err above
 
     tok.expect(',')?;
     let list_defs_key = tok.read_obj_key()?;
@@ -123,16 +145,23 @@ fn jtoken_to_runtime_object(
     tok: &mut JsonTokenizer,
     value: JsonValue,
     name: Option<String>,
+    depth: usize,
 ) -> Result<ArrayElement, StoryError> {
+    if depth > MAX_NESTING {
+        return Err(StoryError::BadJson(
+            "Story JSON is nested too deeply.".to_owned(),
+        ));
+    }
+
     match value {
         JsonValue::Null => Ok(ArrayElement::NullElement),
         JsonValue::Boolean(value) => Ok(ArrayElement::RTObject(Rc::new(Value::new::<bool>(value)))),
         JsonValue::Number(value) => {
             if value.is_integer() {
-                let val: i32 = value.as_integer().unwrap();
+                let val: i32 = value.as_integer().ok_or_else(|| malformed("an integer"))?;
                 Ok(ArrayElement::RTObject(Rc::new(Value::new::<i32>(val))))
             } else {
-                let val: f32 = value.as_float().unwrap();
+                let val: f32 = value.as_float().ok_or_else(|| malformed("a number"))?;
                 Ok(ArrayElement::RTObject(Rc::new(Value::new::<f32>(val))))
             }
         }
@@ -140,12 +169,9 @@ fn jtoken_to_runtime_object(
             let str = value.as_str();
 
             // String value
-            let first_char = str.chars().next().unwrap();
-            if first_char == '^' {
-                return Ok(ArrayElement::RTObject(Rc::new(Value::new::<&str>(
-                    &str[1..],
-                ))));
-            } else if first_char == '\n' && str.len() == 1 {
+            if let Some(text) = str.strip_prefix('^') {
+                return Ok(ArrayElement::RTObject(Rc::new(Value::new::<&str>(text))));
+            } else if str == "\n" {
                 return Ok(ArrayElement::RTObject(Rc::new(Value::new::<&str>("\n"))));
             }
 
@@ -180,7 +206,11 @@ fn jtoken_to_runtime_object(
                 str
             )))
         }
-        JsonValue::Array => Ok(ArrayElement::RTObject(jarray_to_container(tok, name)?)),
+        JsonValue::Array => Ok(ArrayElement::RTObject(jarray_to_container(
+            tok,
+            name,
+            depth + 1,
+        )?)),
         JsonValue::Object => {
             let prop = tok.read_obj_key()?;
             let prop_value = tok.read_value()?;
@@ -195,13 +225,13 @@ fn jtoken_to_runtime_object(
 
             // // VariablePointerValue
             if prop == "^var" {
-                let variable_name = prop_value.as_str().unwrap();
+                let variable_name = str_of(&prop_value)?;
                 let mut contex_index = -1;
 
                 if tok.peek()? == ',' {
                     tok.expect(',')?;
                     tok.expect_obj_key("ci")?;
-                    contex_index = tok.read_number().unwrap().as_integer().unwrap();
+                    contex_index = read_int(tok)?;
                 }
 
                 let var_ptr = Rc::new(Value::new_variable_pointer(variable_name, contex_index));
@@ -233,7 +263,7 @@ fn jtoken_to_runtime_object(
             }
 
             if is_divert {
-                let target = prop_value.as_str().unwrap().to_string();
+                let target = str_of(&prop_value)?.to_string();
 
                 let mut var_divert_name: Option<String> = None;
                 let mut target_path: Option<String> = None;
@@ -252,7 +282,8 @@ fn jtoken_to_runtime_object(
                     } else if prop == "c" {
                         conditional = true;
                     } else if prop == "exArgs" {
-                        external_args = prop_value.as_integer().unwrap() as usize;
+                        external_args = usize::try_from(int_of(&prop_value)?)
+                            .map_err(|_| malformed("a non-negative integer"))?;
                     }
                 }
 
@@ -275,12 +306,12 @@ fn jtoken_to_runtime_object(
             // Choice
             if prop == "*" {
                 let mut flags = 0;
-                let path_string_on_choice = prop_value.as_str().unwrap();
+                let path_string_on_choice = str_of(&prop_value)?;
 
                 if tok.peek()? == ',' {
                     tok.expect(',')?;
                     tok.expect_obj_key("flg")?;
-                    flags = tok.read_number().unwrap().as_integer().unwrap();
+                    flags = read_int(tok)?;
                 }
 
                 tok.expect('}')?;
@@ -294,14 +325,14 @@ fn jtoken_to_runtime_object(
             if prop == "VAR?" {
                 tok.expect('}')?;
                 return Ok(ArrayElement::RTObject(Rc::new(VariableReference::new(
-                    prop_value.as_str().unwrap(),
+                    str_of(&prop_value)?,
                 ))));
             }
 
             if prop == "CNT?" {
                 tok.expect('}')?;
                 return Ok(ArrayElement::RTObject(Rc::new(
-                    VariableReference::from_path_for_count(prop_value.as_str().unwrap()),
+                    VariableReference::from_path_for_count(str_of(&prop_value)?),
                 )));
             }
 
@@ -318,7 +349,7 @@ fn jtoken_to_runtime_object(
             }
 
             if is_var_ass {
-                let var_name = prop_value.as_str().unwrap();
+                let var_name = str_of(&prop_value)?;
                 let mut is_new_decl = true;
 
                 if tok.peek()? == ',' {
@@ -340,9 +371,9 @@ fn jtoken_to_runtime_object(
             // // Legacy Tag
             if prop == "#" {
                 tok.expect('}')?;
-                return Ok(ArrayElement::RTObject(Rc::new(Tag::new(
-                    prop_value.as_str().unwrap(),
-                ))));
+                return Ok(ArrayElement::RTObject(Rc::new(Tag::new(str_of(
+                    &prop_value,
+                )?))));
             }
 
             // List value
@@ -385,8 +416,10 @@ fn jtoken_to_runtime_object(
 
             // Used when serialising save state only
             if prop == "originalChoicePath" {
-                todo!("originalChoicePath");
-                // return jobject_to_choice(obj); // TODO
+                return Err(StoryError::BadJson(
+                    "Choice objects in story content are not supported by the streaming loader."
+                        .to_owned(),
+                ));
             }
 
             // Last Element
@@ -399,11 +432,12 @@ fn jtoken_to_runtime_object(
 
             loop {
                 if p == "#f" {
-                    flags = pv.as_integer().unwrap();
+                    flags = int_of(&pv)?;
                 } else if p == "#n" {
-                    name = Some(pv.as_str().unwrap().to_string());
+                    name = Some(str_of(&pv)?.to_string());
                 } else {
-                    let named_content_item = jtoken_to_runtime_object(tok, pv, Some(p.clone()))?;
+                    let named_content_item =
+                        jtoken_to_runtime_object(tok, pv, Some(p.clone()), depth + 1)?;
 
                     let named_content_item = match named_content_item {
                         ArrayElement::RTObject(rt_obj) => rt_obj,
@@ -417,7 +451,7 @@ fn jtoken_to_runtime_object(
                     let named_sub_container = named_content_item
                         .into_any()
                         .downcast::<Container>()
-                        .unwrap();
+                        .map_err(|_| malformed("a container"))?;
 
                     named_only_content.insert(p, named_sub_container);
                 }
@@ -447,7 +481,7 @@ fn parse_list(tok: &mut JsonTokenizer) -> Result<HashMap<String, i32>, StoryErro
 
     while tok.peek()? != '}' {
         let key = tok.read_obj_key()?;
-        let value = tok.read_number().unwrap().as_integer().unwrap();
+        let value = read_int(tok)?;
         list_content.insert(key, value);
 
         if tok.peek()? != '}' {
@@ -463,8 +497,9 @@ fn parse_list(tok: &mut JsonTokenizer) -> Result<HashMap<String, i32>, StoryErro
 fn jarray_to_container(
     tok: &mut JsonTokenizer,
     name: Option<String>,
+    depth: usize,
 ) -> Result<Rc<dyn RTObject>, StoryError> {
-    let (content, named) = jarray_to_runtime_obj_list(tok)?;
+    let (content, named) = jarray_to_runtime_obj_list(tok, depth)?;
 
     // Final object in the array is always a combination of
     //  - named content
@@ -490,13 +525,13 @@ fn jarray_to_container(
     Ok(container)
 }
 
-fn jarray_to_runtime_obj_list(tok: &mut JsonTokenizer) -> RuntimeObjectListResult {
+fn jarray_to_runtime_obj_list(tok: &mut JsonTokenizer, depth: usize) -> RuntimeObjectListResult {
     let mut list: RuntimeObjectList = Vec::new();
     let mut last_element: Option<ArrayElement> = None;
 
     while tok.peek()? != ']' {
         let val = tok.read_value()?;
-        let runtime_obj = jtoken_to_runtime_object(tok, val, None)?;
+        let runtime_obj = jtoken_to_runtime_object(tok, val, None, depth)?;
 
         match runtime_obj {
             ArrayElement::LastElement(flags, name, named_only_content) => {
